@@ -562,6 +562,11 @@ func (u *Unit) evalInner(st *State, env *SpecEnv, e *Spec) (Val, error) {
 				if u.ixCollect != nil {
 					*u.ixCollect = append(*u.ixCollect, i)
 				}
+				if u.goalEval && !strings.Contains(i, "q_") && !strings.Contains(i, "qi_") {
+					// a goal reads s[i]: the universally quantified facts known on the path
+					// (append, callee postconditions) are instantiated at i
+					u.instantiate(st, i)
+				}
 				locs := u.elemLocs(t.Elem(), b, fmt.Sprintf("(+ %s %s)", o, i))
 				ts := make([]Term, len(locs))
 				for k, l := range locs {
